@@ -194,3 +194,29 @@ def _tyrepr(ty):
     if isinstance(ty, type) and r:
         return r
     return repr(ty).replace('typing.', 't.')
+
+
+# ---- instance generators for functions that are not converter methods ------------------------------------------
+def _kw_instances(fn, names, grid, label):
+    import itertools
+    out = []
+    for combo in itertools.product(*grid):
+        kw = dict(zip(names, combo))
+        out.append(((lambda *a, _kw=kw: fn(**_kw)), names, combo, f'{label}({", ".join(f"{k}={v!r}" for k, v in kw.items())})'))
+    return out
+
+
+_BOUNDS = [None, 0, 1, -5, 5, 0.0, 2.5]
+_CONDS = [Positive, Negative, NonNegative, Condition(raising_pred, 'raising'), Condition(lambda v: v == 3, 'is3'), val_range(min=0, max=5)]
+
+CUSTOM = {
+    'pane.annotations:val_range': lambda m: _kw_instances(m.val_range, ['min', 'max'], [_BOUNDS, _BOUNDS], 'val_range'),
+    'pane.annotations:len_range': lambda m: _kw_instances(m.len_range, ['min', 'max'], [[None, 0, 1, 3], [None, 0, 2, 3]], 'len_range'),
+    'pane.annotations:Condition.all': lambda m: [((lambda conds, me, _f=m.Condition.all: _f(*conds, make_expected=me)), ['conditions', 'make_expected'], (cs, None), f'Condition.all{cs!r}')
+                                                 for cs in [(), (Positive,), (Positive, _CONDS[4]), (_CONDS[3], Negative), (Negative, _CONDS[3]), tuple(_CONDS[:3])]],
+    'pane.annotations:Condition.any': lambda m: [((lambda conds, me, _f=m.Condition.any: _f(*conds, make_expected=me)), ['conditions', 'make_expected'], (cs, None), f'Condition.any{cs!r}')
+                                                 for cs in [(), (Positive,), (Negative, _CONDS[4]), (_CONDS[3], Positive), (Positive, _CONDS[3]), tuple(_CONDS[:3])]],
+    'pane.annotations:Condition.__invert__': lambda m: [(m.Condition.__invert__, ['self'], (c,), f'~{c.name}') for c in _CONDS],
+    'pane.annotations:Condition.__and__': lambda m: [(m.Condition.__and__, ['self', 'other'], (a, b), f'{a.name} & {b.name}') for a in _CONDS for b in _CONDS],
+    'pane.annotations:Condition.__or__': lambda m: [(m.Condition.__or__, ['self', 'other'], (a, b), f'{a.name} | {b.name}') for a in _CONDS for b in _CONDS],
+}
